@@ -165,10 +165,13 @@ HARNESS h_x86line_bc_hi3() { line_case<3, 0, 0, 0, 2, 0>(); }
 HARNESS h_x86line_k1() { line_case<1, 0, 0, 1, 0, 0>(); }
 HARNESS h_x86line_kz3() { line_case<3, ZMASK, 0, 1, 0, 0>(); }
 HARNESS h_x86line_z2() { line_case<2, ZMASK, 0, 0, 0, 0>(); }
-HARNESS h_x86line_er2() { line_case<2, ER, ERMASK, 0, 0, 0>(); }
-HARNESS h_x86line_sae3() { line_case<3, SAE, ERMASK, 0, 0, 0>(); }
-// every word, {k}{z}, {1toN} and {er} at once, six operands: order of all the pieces (constant lengths, symbolic ids / mask / mode / broadcast)
-HARNESS h_x86line_full6() { line_case<6, ALL_WORDS | ZMASK | ER | SAE, ERMASK, 1, 2, 0>(); }
+HARNESS h_x86line_er2_rn() { line_case<2, ER, 0, 0, 0, 0>(); }
+HARNESS h_x86line_er2_rd() { line_case<2, ER | O(InstOptions::kX86_RD_SAE), 0, 0, 0, 0>(); }
+HARNESS h_x86line_er2_ru() { line_case<2, ER | SAE | O(InstOptions::kX86_RU_SAE), 0, 0, 0, 0>(); }
+HARNESS h_x86line_er2_rz() { line_case<2, ER | O(InstOptions::kX86_RZ_SAE), 0, 0, 0, 0>(); }
+HARNESS h_x86line_sae3() { line_case<3, SAE | O(InstOptions::kX86_RZ_SAE), 0, 0, 0, 0>(); }
+// every word, {k}{z}, {1toN} and {er} at once, six operands: order of all the pieces (constant lengths, symbolic ids / mask / broadcast)
+HARNESS h_x86line_full6() { line_case<6, ALL_WORDS | ZMASK | ER | SAE | O(InstOptions::kX86_RU_SAE), 0, 1, 2, 0>(); }
 // ---- a symbolic piece in front of operands: the later pieces land at a symbolic position -------------------------------------
 HARNESS h_x86line_x_vex3() { line_case<3, 0, VEX | VEX3 | EVEX, 0, 0, 0>(); }
 HARNESS h_x86line_x_rep3() { line_case<3, 0, REP | REPNE | REX, 2, 0, 0>(); }
